@@ -30,7 +30,7 @@ UNIX_EPOCH_US = np.datetime64('1970-01-01T00:00:00', 'us')
 
 def generate(rng, tier):
     prog = wgen.gen_program(rng)
-    sink = rng.choice(['simpath', 'simstream', 'bytesio', 'realpath'])
+    sink = rng.choice(['simpath', 'simstream', 'bytesio', 'realpath', 'minimal'])
     case = {'program': prog, 'sink': sink, 'index': rng.random() < 0.3,
             'fname': rng.choice(['out.tdms'] * 4 + ['OUT.TDMS', 'capture', 'out.tdms.part', 'my data.tdms', 'run.1.dat'])}
     if rng.random() < 0.15:
